@@ -9,6 +9,8 @@ package main
 // syntax of lean/TdxModel/Drive/PckExt.lean.  The oracle knows only what the generator encoded.
 
 import (
+	"sync"
+	"sync/atomic"
 	"bytes"
 	crand "crypto/rand"
 	"crypto/ecdsa"
@@ -825,6 +827,69 @@ func c13(r *hx.Run) {
 			}
 		}
 		g.run(kind, expFree, v, val, certSix)
+	}
+	// extraction is exact whoever else extracts at the same time: 16 goroutines over 48 well-formed certificates with distinct
+	// values and shuffled element order, every result compared with the encoded values (harness-only)
+	{
+		type job struct {
+			cert *x509.Certificate
+			want string
+		}
+		var jobs []job
+		for i := 0; i < 48; i++ {
+			v := c13rand(rng)
+			e := c13encode(v)
+			e.shuffle(rng)
+			cert, err := g.pki.leaf([]pkix.Extension{{Id: asn1.ObjectIdentifier(c13Base), Value: e.value()}}, true)
+			if err != nil {
+				panic(err)
+			}
+			jobs = append(jobs, job{cert, v.want()})
+		}
+		show := func(c *x509.Certificate) string {
+			s, _ := hx.Guard(func() string {
+				p, err := pcs.PckCertificateExtensions(c)
+				if err != nil || p == nil {
+					return "err"
+				}
+				dash := func(s string) string {
+					if s == "" {
+						return "-"
+					}
+					return s
+				}
+				return fmt.Sprintf("ok ppid=%s comps=%s pcesvn=%d cpusvn=%s pceid=%s fmspc=%s", dash(p.PPID), hx.Hex(p.TCB.CPUSvnComponents), p.TCB.PCESvn, hx.Hex(p.TCB.CPUSvn), dash(p.PCEID), dash(p.FMSPC))
+			})
+			return s
+		}
+		iters := 300
+		if r.Tier == "thorough" {
+			iters = 4000
+		}
+		var wrong atomic.Int64
+		var first atomic.Value
+		var wg sync.WaitGroup
+		for gi := 0; gi < 16; gi++ {
+			wg.Add(1)
+			go func(gi int) {
+				defer wg.Done()
+				for it := 0; it < iters; it++ {
+					j := jobs[(gi*7+it)%len(jobs)]
+					if got := show(j.cert); got != j.want {
+						if wrong.Add(1) == 1 {
+							first.Store(fmt.Sprintf("encoded %s, extracted %s", j.want, got))
+						}
+					}
+				}
+			}(gi)
+		}
+		wg.Wait()
+		obs, fail := "exact", ""
+		if n := wrong.Load(); n > 0 {
+			obs = "wrong"
+			fail = fmt.Sprintf("%d of %d extractions running concurrently returned other values than the certificate encodes (first: %v); each is exact when run alone", n, 16*iters, first.Load())
+		}
+		r.Emit("# C13.concurrent goroutines=16", obs, fail, "concurrent", true, "kind:concurrent")
 	}
 	r.Note("kinds", g.seen)
 	r.Note("oracle", "exact: result must equal the encoded values; err: result must be an error; err-or-exact: tolerated forms (O-4b wrapping) may be refused or decoded to the encoded value, nothing else; free: outside the statement (O-4, element counts, fields/junk a struct target ignores, random mutations) — no panic, behaviour pinned by the model")
